@@ -211,8 +211,9 @@ def _one_guard(repo, rep, P, wcon, w, ge, gd, defaults, secs, secname):
     if w.cid == "SLnK":
         sv = secs["project"].reader_cls
         eof = sv.methods.get("process_end_of_file")
-        src = norm(eof) if eof else ""
-        if "not mod or mod.in_link_slots" in src and "in_link_slots.append" in src:
+        from .. import inline
+        src = norm(inline.normalize(repo, sv, eof, aliases=True)) if eof else ""
+        if ".in_link_slots" in src and "in_link_slots.append" in src:
             from ..guards import canon
             ok_guard = canon(ge) == "exists_notin(module.in_link_slots;[-1, 0])"
             if ok_guard:
@@ -225,7 +226,8 @@ def _one_guard(repo, rep, P, wcon, w, ge, gd, defaults, secs, secname):
             rep.violation(f"{P}.R4", wcon, gd, "SLnK is conditionally omitted but the reader has no reconstruction pass", w.where)
         return
     if w.cid == "STYP":
-        if gd.replace(" ", "") == "self.mtypeisnotNoneandself.mtype!='Output'":
+        from ..guards import canon
+        if canon(ge) == canon(ast.parse("self.mtype is not None and self.mtype != 'Output'", mode="eval").body):
             rep.ok(f"{P}.R4", wcon, gd, "omitted for Output only; the reader builds Output for position 0")
         else:
             rep.violation(f"{P}.R4", wcon, gd, "STYP may be omitted for the Output module only", w.where)
